@@ -329,7 +329,8 @@ def classify(name, e, w):
         "NotLostByCancel": ("a datagram told to %s was seen by no receiver callback although a healthy Receive was waiting (%s, %s)" % (comp, phase, w.get("info", ""))
                             if w.get("lvl") == "dgram" else "a message accepted by %s was never handed to a callback" % comp),
         "RetTruthful": "%s on %s returned %s, which its history does not justify" % (kind, comp, e.get("res")),
-        "NoStaleContent": "the payload seen by a callback on %s is not what the deliverer wrote" % comp,
+        "NoStaleContent": ("a callback on %s was handed a buffer that an earlier callback had already owned and overwritten" % comp
+                           if e.get("msg") == -2 else "the payload seen by a callback on %s is not what the deliverer wrote" % comp),
         "OnlyDelivered": "a callback on %s saw a message nobody delivered" % comp,
         "QueueBounded": "Queue.Deliver accepted a message while all its buffers were in use",
     }.get(op, op)
